@@ -38,7 +38,10 @@ pub fn profile() -> Profile {
     p.stmts = (0, 1);
     p.entries = [(0, 1), (0, 1), (0, 1)];
     p.io_structs = true;
-    p.vertex_struct_params = (0, 1);
+    p.vertex_struct_params = (0, 2);
+    // vertex input structs that are also bound as storage are host-shareable structs with @location members
+    p.vin_as_storage = 5;
+    p.entries = [(0, 2), (0, 1), (0, 1)];
     p.push = 1;
     p.private = 1;
     p.workgroup = 1;
@@ -94,6 +97,7 @@ fn classes(sh: &Shader, o: &Opts, stats: &mut Stats) {
             let sd = &sh.structs[r.index];
             stats.class_if(sd.members.iter().any(|m| m.size_attr.is_some() || m.align_attr.is_some()), "explicit_size_or_align");
             stats.class_if(sd.members.iter().any(|m| matches!(m.ty, Ty::M { .. })), "matrix_member");
+            stats.class_if(sd.members.iter().any(|m| matches!(m.io, Io::Loc { .. })), "host_struct_with_location_members");
             stats.class_if(sd.members.iter().any(|m| matches!(m.ty, Ty::St(_))), "nested_struct_member");
             stats.class_if(sd.members.iter().any(|m| matches!(&m.ty, Ty::A(e, _) if matches!(**e, Ty::V(3, _)))), "array_of_vec3");
         }
